@@ -39,7 +39,8 @@ def unsafe_direction(impl, seq):
 
 def pace_oracle(case, impl):
     """Pacing oracle evaluated on the implementation's own output: two evaluations of one group entry at clock values
-    not more than minInterval apart."""
+    less than minInterval apart ("more often than the interval"; exactly the interval apart is not more often -- the
+    model's strict '>' is then a disagreement without a failing input)."""
     f = case.split()
     mi = int(f[1])
     ng = int(f[2])
@@ -52,7 +53,7 @@ def pace_oracle(case, impl):
             now = int(f[i + 1]); i += 2
             if k < len(outs) and outs[k].startswith("T:"):
                 for g in [x for x in outs[k][2:].split(",") if x.isdigit()]:
-                    if g in last and now - last[g] <= mi * G.NS:
+                    if g in last and now - last[g] < mi * G.NS:
                         return "group %s evaluated at %d and %d (minInterval %d s)" % (g, last[g], now, mi)
                     last[g] = now
         else:
@@ -106,10 +107,10 @@ def cfg_oracle(case, impl):
                 return "group(s) %s requested at clock %d while the lock is not held" % (",".join(ids), now)
             seen = set()
             for g in ids:
-                if g in seen:
+                if g in seen and exp > 0:
                     return "group %s requested more than once in the iteration(s) at clock %d (shortest configured interval %d s)" % (g, now, exp)
                 seen.add(g)
-                if g in last and now - last[g] <= exp * G.NS:
+                if g in last and now - last[g] < exp * G.NS:
                     return ("group %s evaluated at %d and again at %d: %d ns apart, shortest configured interval %d s"
                             % (g, last[g], now, now - last[g], exp))
             if gate:
@@ -139,7 +140,7 @@ def cfg_oracle(case, impl):
             if "+" in o:
                 ids = _ids("+" + o.split("+", 1)[1], "+")
                 for g in ids:
-                    if g in last and ev[1] - last[g] <= exp * G.NS:
+                    if g in last and ev[1] - last[g] < exp * G.NS:
                         return ("group %s evaluated at %d and again at %d (during the list refresh), shortest configured interval %d s"
                                 % (g, last[g], ev[1], exp))
                     last[g] = ev[1]
